@@ -330,6 +330,14 @@ func TestReachableStates(t *testing.T) {
 					if f.nt {
 						nontriv++
 					}
+					if f.v != nil && os.Getenv("VERIF_COLLECT") != "" {
+						// experiment mode: collect every violating path instead of stopping
+						b, _ := json.Marshal(map[string]interface{}{"case": &Case{Max: max, Ops: f.path}, "signature": f.v.Signature, "detail": f.v.Detail})
+						fh, _ := os.OpenFile(os.Getenv("VERIF_COLLECT"), os.O_APPEND|os.O_CREATE|os.O_WRONLY, 0o644)
+						fh.Write(append(b, '\n'))
+						fh.Close()
+						continue
+					}
 					if f.v != nil {
 						st.Violations++
 						b, _ := json.Marshal(&Case{Max: max, Ops: f.path})
